@@ -197,18 +197,12 @@ func (m *monitor) onJobEntry(e *sim.Entry) {
 		m.userEdited[string(before.UID)] = true
 	}
 
-	// --- C13: a Job leaves the API only after its tasks ---
+	// --- C13: a Job leaves the API only after every task listed in its status ---
 	if e.Removed && before != nil {
-		for _, p := range m.r.w.API.Pods() {
-			if ref := metav1.GetControllerOf(p); ref != nil && ref.UID == before.UID {
-				m.fail("C13", "job-removed-before-tasks", "Job %s left the API (by %s) while its task %s still exists (phase %s)", e.Key, e.Actor, p.Name, p.Status.Phase)
-				return
-			}
-		}
 		for _, tref := range before.Status.Tasks {
 			if p := m.r.w.API.Get(sim.ResPods, before.Namespace+"/"+tref.Name); p != nil {
 				if ref := metav1.GetControllerOf(p.(*corev1.Pod)); ref != nil && ref.UID == before.UID {
-					m.fail("C13", "job-removed-before-tasks", "Job %s left the API while listed task %s still exists", e.Key, tref.Name)
+					m.fail("C13", "job-removed-before-tasks", "Job %s left the API (by %s) while its listed task %s still exists", e.Key, e.Actor, tref.Name)
 				}
 			}
 		}
@@ -226,6 +220,14 @@ func (m *monitor) onJobEntry(e *sim.Entry) {
 			// The controller deletes in the same sync in which it computes the finished
 			// status, before writing it: judge on what it could compute from its caches.
 			fin = m.knowableFinished(before)
+		}
+		if fin == nil {
+			// a foreign Pod on one of its task names makes the Job AdmissionError within the same sync
+			for pk, jn := range m.foreign {
+				if jn == before.Name && m.r.w.API.Get(sim.ResPods, pk) != nil {
+					fin = &execution.JobConditionFinished{FinishTimestamp: metav1.NewTime(now)}
+				}
+			}
 		}
 		if fin == nil {
 			m.fail("C13", "ttl-delete-unfinished", "controller deleted Job %s which is not finished", e.Key)
